@@ -243,6 +243,12 @@ fn stop_class<E>(r: &Reason<E>) -> (String, String) {
     }
 }
 
+/// checksum of a payload piece (sum of the bytes modulo 65521), compared by PayMon with the
+/// closed form for the position pattern
+fn bsum(b: &[u8]) -> i64 {
+    (b.iter().map(|x| *x as u64).sum::<u64>() % 65521) as i64
+}
+
 /// Reading the payload the way the outcome asks for; returns (bytes read, error?)
 macro_rules! read_payload {
     ($ctx:expr, $h:expr, $p:expr, $out:expr) => {{
@@ -250,7 +256,7 @@ macro_rules! read_payload {
             "all" => match $p.read_all().await {
                 Ok(b) => {
                     let ok = b.iter().all(|c| *c == b[0]);
-                    $ctx.emit(Ev::new("h_read").s($h).n(b.len() as i64).r(0).q(if ok && !b.is_empty() {
+                    $ctx.emit(Ev::new("h_read").s($h).n(b.len() as i64).r(0).k("all").id(bsum(&b)).q(if ok && !b.is_empty() {
                         b[0] as i64
                     } else if b.is_empty() { 0 } else { -1 }));
                 }
@@ -267,10 +273,10 @@ macro_rules! read_payload {
                                 if !same || (fill != 0 && fill != b[0] as i64) { fill = -1 } else if fill == 0 { fill = b[0] as i64 }
                             }
                             total += b.len();
-                            $ctx.emit(Ev::new("h_chunk").s($h).n(b.len() as i64));
+                            $ctx.emit(Ev::new("h_chunk").s($h).n(b.len() as i64).id(bsum(&b)));
                         }
                         Ok(None) => {
-                            $ctx.emit(Ev::new("h_read").s($h).n(total as i64).r(0).q(fill));
+                            $ctx.emit(Ev::new("h_read").s($h).n(total as i64).r(0).k("chunks").q(fill));
                             break;
                         }
                         Err(e) => {
@@ -281,7 +287,7 @@ macro_rules! read_payload {
                 }
             }
             "one" => match $p.read().await {
-                Ok(Some(b)) => $ctx.emit(Ev::new("h_chunk").s($h).n(b.len() as i64)),
+                Ok(Some(b)) => $ctx.emit(Ev::new("h_chunk").s($h).n(b.len() as i64).id(bsum(&b))),
                 Ok(None) => $ctx.emit(Ev::new("h_read").s($h).n(0).r(0)),
                 Err(e) => $ctx.emit(Ev::new("h_read").s($h).n(-1).r(1).x(format!("{e:?}"))),
             },
